@@ -13,6 +13,7 @@ package mcpx
 import (
 	"context"
 	"encoding/json"
+	"bufio"
 	"errors"
 	"fmt"
 	"io"
@@ -51,7 +52,7 @@ type c01Spec struct {
 }
 
 func genC01(r *vh.Rand) c01Spec {
-	s := c01Spec{Side: r.Choose("client", "client", "server"), ReadFailAt: -1, CloseAt: -1}
+	s := c01Spec{Side: r.Choose("client", "client", "server", "wire"), ReadFailAt: -1, CloseAt: -1}
 	k := r.Range(1, vh.Pick(8, 24))
 	horizon := r.Range(3, 9)
 	for i := 0; i < k; i++ {
@@ -75,6 +76,14 @@ func genC01(r *vh.Rand) c01Spec {
 	}
 	if r.Chance(1, 3) {
 		s.CloseAt, s.Closers = r.Intn(horizon+4), r.Range(1, 3)
+	}
+	if s.Side == "wire" {
+		for i := range s.Calls {
+			s.Calls[i].Write = "ok"
+			if s.Calls[i].Resp == "inside" {
+				s.Calls[i].Resp = "ok"
+			}
+		}
 	}
 	s.Waiters = r.Intn(3)
 	s.EndAt = horizon + 14
@@ -127,6 +136,10 @@ func nonceOfParams(raw json.RawMessage) int {
 }
 
 func runC01(c *vh.Case, spec c01Spec) {
+	if spec.Side == "wire" {
+		runC01Wire(c, spec)
+		return
+	}
 	log := c.Log
 	sc := vhm.NewScriptConn(log)
 	byN := map[int]c01Call{}
@@ -624,3 +637,222 @@ func decideC01(c *vh.Case, spec c01Spec) {
 }
 
 var _ = testing.Short
+
+
+// runC01Wire drives a real ClientSession over the SDK's own ndjson connection
+// (IOTransport on pipes, protocol 2025-03-26) against a raw peer that answers
+// all responses falling due at the same instant in ONE JSON-RPC batch line.
+func runC01Wire(c *vh.Case, spec c01Spec) {
+	log := c.Log
+	ctx := context.Background()
+	byN := map[int]c01Call{}
+	for _, cs := range spec.Calls {
+		byN[cs.N] = cs
+	}
+	cr, pw := io.Pipe() // peer -> client
+	pr, cw := io.Pipe() // client -> peer
+	okResult := func(n int) string { return fmt.Sprintf(`{"content":[{"type":"text","text":"nonce-%d"}]}`, n) }
+	type due struct {
+		id   string // raw JSON id
+		kind string
+		body string
+	}
+	var mu sync.Mutex
+	pending := map[int64][]due{} // due instant (us since start) -> responses
+	start := time.Now()
+	var bg sync.WaitGroup
+	var wmu sync.Mutex
+	writeLine := func(items []due) {
+		var parts []string
+		for _, d := range items {
+			parts = append(parts, d.body)
+		}
+		line := parts[0]
+		if len(parts) > 1 {
+			line = "[" + strings.Join(parts, ",") + "]"
+		}
+		wmu.Lock()
+		_, err := pw.Write([]byte(line + "\n"))
+		wmu.Unlock()
+		if err != nil {
+			return
+		}
+		log.Add("batch-line", "size", len(items))
+		for _, d := range items {
+			log.Add("read-returned", "kind", d.kind, "id", d.id, "method", "")
+		}
+	}
+	schedule := func(after time.Duration, d due) {
+		at := int64((time.Since(start) + after) / time.Microsecond)
+		mu.Lock()
+		first := len(pending[at]) == 0
+		pending[at] = append(pending[at], d)
+		mu.Unlock()
+		if !first {
+			return
+		}
+		bg.Add(1)
+		go func() {
+			defer bg.Done()
+			time.Sleep(after)
+			synctestWaitSafe()
+			mu.Lock()
+			items := pending[at]
+			delete(pending, at)
+			mu.Unlock()
+			if len(items) > 0 {
+				writeLine(items)
+			}
+		}()
+	}
+	peerDone := make(chan struct{})
+	go func() {
+		defer close(peerDone)
+		sc := bufio.NewScanner(pr)
+		sc.Buffer(make([]byte, 1<<20), 1<<20)
+		for sc.Scan() {
+			var m struct {
+				ID     json.RawMessage `json:"id"`
+				Method string          `json:"method"`
+				Params json.RawMessage `json:"params"`
+			}
+			if json.Unmarshal(sc.Bytes(), &m) != nil || len(m.ID) == 0 {
+				continue
+			}
+			idRaw := string(m.ID)
+			idStr := "i:" + idRaw
+			mk := func(id, rest string) string { return fmt.Sprintf(`{"jsonrpc":"2.0","id":%s,%s}`, id, rest) }
+			switch m.Method {
+			case "initialize":
+				writeLine([]due{{idStr, "resp", mk(idRaw, `"result":`+vhm.InitializeResultJSON("2025-03-26"))}})
+				continue
+			case "tools/call":
+			default:
+				writeLine([]due{{idStr, "resp", mk(idRaw, `"result":{}`)}})
+				continue
+			}
+			n := nonceOfParams(m.Params)
+			log.Add("req-seen", "n", n, "id", idStr)
+			log.Add("write-returned", "kind", "call", "id", idStr, "method", "tools/call", "err", "")
+			cs, ok := byN[n]
+			if !ok {
+				writeLine([]due{{idStr, "resp", mk(idRaw, `"result":`+okResult(n))}})
+				continue
+			}
+			d := ms(cs.RespDelay)
+			switch cs.Resp {
+			case "ok":
+				schedule(d, due{idStr, "resp", mk(idRaw, `"result":`+okResult(n))})
+			case "err":
+				schedule(d, due{idStr, "resp-err", mk(idRaw, fmt.Sprintf(`"error":{"code":%d,"message":"scripted-error-%d","data":{"n":%d,"k":"<&>"}}`, 1000+n, n, n))})
+			case "twice":
+				schedule(d, due{idStr, "resp", mk(idRaw, `"result":`+okResult(n))})
+				schedule(d+ms(1), due{idStr, "resp", mk(idRaw, `"result":`+okResult(n+5000))})
+			case "wrongid":
+				schedule(d, due{fmt.Sprintf("i:%d", 900000+n), "resp", mk(fmt.Sprint(900000+n), `"result":`+okResult(n+6000))})
+			case "strid":
+				schedule(d, due{"s:" + idRaw, "resp", mk(`"`+idRaw+`"`, `"result":`+okResult(n+7000))})
+				schedule(d+ms(1), due{idStr, "resp", mk(idRaw, `"result":`+okResult(n))})
+			}
+		}
+	}()
+	client := mcp.NewClient(&mcp.Implementation{Name: "c", Version: "1"}, nil)
+	cs, err := client.Connect(ctx, &mcp.IOTransport{Reader: cr, Writer: cw}, &mcp.ClientSessionOptions{ProtocolVersion: "2025-03-26"})
+	if err != nil {
+		c.Inconclusive("wire connect: %v", err)
+		return
+	}
+	log.Add("connected")
+	doCall := func(ctx context.Context, n int) (string, error) {
+		res, err := cs.CallTool(ctx, &mcp.CallToolParams{Name: "echo", Arguments: map[string]any{"nonce": n}})
+		if err != nil {
+			return "", err
+		}
+		return textOf(res), nil
+	}
+	var calls sync.WaitGroup
+	runCall := func(n int, cancelAt int, startAt int) {
+		defer calls.Done()
+		defer c.Guard("")
+		cctx, cancel := context.WithCancel(ctx)
+		defer cancel()
+		if cancelAt >= 0 {
+			bg.Add(1)
+			go func() {
+				defer bg.Done()
+				time.Sleep(ms(cancelAt - startAt))
+				log.Add("cancel", "n", n)
+				cancel()
+			}()
+		}
+		log.Add("call-start", "n", n)
+		payload, err := doCall(cctx, n)
+		log.Add("call-return", "n", n, "outcome", classifyC01(payload, err), "err", errText(err))
+	}
+	for _, cs := range spec.Calls {
+		cs := cs
+		calls.Add(1)
+		go func() {
+			time.Sleep(ms(cs.StartAt))
+			runCall(cs.N, cs.CancelAt, cs.StartAt)
+		}()
+	}
+	if spec.ReadFailAt >= 0 {
+		bg.Add(1)
+		go func() {
+			defer bg.Done()
+			time.Sleep(ms(spec.ReadFailAt))
+			wmu.Lock()
+			if spec.ReadFailEO {
+				log.Add("read-error", "err", "EOF")
+				pw.Close()
+			} else {
+				log.Add("read-error", "err", c01ReadErr)
+				pw.CloseWithError(errors.New(c01ReadErr))
+			}
+			wmu.Unlock()
+		}()
+	}
+	if spec.CloseAt >= 0 {
+		for i := 0; i < spec.Closers; i++ {
+			bg.Add(1)
+			go func() {
+				defer bg.Done()
+				defer c.Guard("")
+				time.Sleep(ms(spec.CloseAt))
+				log.Add("close-called")
+				cs.Close()
+				log.Add("close-returned")
+			}()
+		}
+	}
+	var waiters sync.WaitGroup
+	for i := 0; i < spec.Waiters+1; i++ {
+		waiters.Add(1)
+		go func() {
+			defer waiters.Done()
+			cs.Wait()
+			log.Add("wait-returned")
+		}()
+	}
+	time.Sleep(ms(spec.EndAt))
+	log.Add("peer-vanishes")
+	wmu.Lock()
+	if spec.ReadFailAt < 0 {
+		log.Add("read-error", "err", "EOF")
+	}
+	pw.Close()
+	wmu.Unlock()
+	waiters.Wait()
+	synctestWait()
+	log.Add("after-wait")
+	for i := 0; i < spec.PostCalls; i++ {
+		calls.Add(1)
+		go runCall(10000+i, -1, 0)
+	}
+	calls.Wait()
+	bg.Wait()
+	pr.Close()
+	<-peerDone
+	time.Sleep(11 * time.Second)
+}
